@@ -182,10 +182,43 @@ def gen_bracket_case(rng, maxlen):
     return dict(ops=ops[:maxlen + 10], via_base=rng.random() < 0.3)
 
 
+def gen_registry_case(rng, maxlen):
+    """registry life cycle on very few keys: the same (observer, name, sender) is registered, removed and registered
+    again - with, without and with another identifier, alone on its key or not - and looked up in between"""
+    FOCUS.clear()
+    keys = [(rng.choice([None] + NAMES[:2]), rng.choice([None] + SENDERS[:2])) for _ in range(2)]
+    obs = rng.sample(OBSERVERS[:3], 2)
+    ops = []
+    registered = set()
+    for _ in range(rng.randint(6, maxlen)):
+        o = rng.choice(obs)
+        n, sd = rng.choice(keys)
+        r = rng.random()
+        if r < 0.35:
+            ops.append(["add", o, rng.choice(METHS), n, sd, _o(rng, IDENTS, 0.5)])
+            registered.add((o, n, sd))
+        elif r < 0.6:
+            ops.append(["remove", o, n, sd])
+            registered.discard((o, n, sd))
+        elif r < 0.68:
+            ops.append(["removeAll", o, rng.choice([None, sd])])
+        elif r < 0.9:
+            ops.append(["find", rng.choice([None, o]), rng.choice([None, n]), rng.choice([None, sd]), _o(rng, PATS, 0.5)])
+        elif r < 0.95:
+            ops.append(["has", o, n, sd])
+        else:
+            ops.append(["post", n if n is not None else rng.choice(NAMES), sd if sd is not None else rng.choice(SENDERS), 1])
+    ops.append(["find", None, None, None, None])
+    return dict(ops=ops, via_base=rng.random() < 0.3)
+
+
 def generate(rng, tier):
     n, maxlen = (1500, 25) if tier == "quick" else (20000, 60)
     for i in range(n):
-        yield gen_bracket_case(rng, maxlen) if i % 2 else gen_case(rng, maxlen)
+        if i % 8 == 5:
+            yield gen_registry_case(rng, maxlen)
+        else:
+            yield gen_bracket_case(rng, maxlen) if i % 2 else gen_case(rng, maxlen)
 
 
 def neighbourhood(case, step, rng):
